@@ -65,41 +65,19 @@ theorem processPolygon_dedup (s : Bool) (c : Nat) (e : Bool) (st : FQ × Option 
 theorem C07_repeated_vertices_fillQueue (a b : MPoly) (op : Op) :
     fillQueue (a.map dedupPoly) (b.map dedupPoly) op = fillQueue a b op := by
   unfold fillQueue
-  have h1 : ∀ (acc : Nat × FQ × Option BBox),
-      List.foldl (fun (acc : Nat × FQ × Option BBox) p =>
-        let (cid, fq, sb) := acc
-        let cid := cid + 1
-        let (fq, sb) := processPolygon true cid true (fq, sb) p
-        (cid, fq, sb)) acc (a.map dedupPoly)
-      = List.foldl (fun (acc : Nat × FQ × Option BBox) p =>
-        let (cid, fq, sb) := acc
-        let cid := cid + 1
-        let (fq, sb) := processPolygon true cid true (fq, sb) p
-        (cid, fq, sb)) acc a := by
+  have h1 : ∀ (acc : Nat × FQ × Option BBox), List.foldl subjStep acc (a.map dedupPoly) = List.foldl subjStep acc a := by
     induction a with
     | nil => intro acc; rfl
     | cons p ps ih =>
       intro acc
-      simp only [List.map_cons, List.foldl_cons, processPolygon_dedup]
+      simp only [List.map_cons, List.foldl_cons, subjStep, processPolygon_dedup]
       exact ih _
-  have h2 : ∀ (acc : Nat × FQ × Option BBox),
-      List.foldl (fun (acc : Nat × FQ × Option BBox) p =>
-        let (cid, fq, cb) := acc
-        let exterior := op != .difference
-        let cid := if exterior then cid + 1 else cid
-        let (fq, cb) := processPolygon false cid exterior (fq, cb) p
-        (cid, fq, cb)) acc (b.map dedupPoly)
-      = List.foldl (fun (acc : Nat × FQ × Option BBox) p =>
-        let (cid, fq, cb) := acc
-        let exterior := op != .difference
-        let cid := if exterior then cid + 1 else cid
-        let (fq, cb) := processPolygon false cid exterior (fq, cb) p
-        (cid, fq, cb)) acc b := by
+  have h2 : ∀ (acc : Nat × FQ × Option BBox), List.foldl (clipStep op) acc (b.map dedupPoly) = List.foldl (clipStep op) acc b := by
     induction b with
     | nil => intro acc; rfl
     | cons p ps ih =>
       intro acc
-      simp only [List.map_cons, List.foldl_cons, processPolygon_dedup]
+      simp only [List.map_cons, List.foldl_cons, clipStep, processPolygon_dedup]
       exact ih _
   simp only [h1, h2]
 
